@@ -57,8 +57,9 @@ func (k *Keeper) GetAVSMinimumSelfDelegation(ctx sdk.Context, avsAddr string) (s
 	if err != nil {
 		return sdkmath.LegacyNewDec(0), errorsmod.Wrap(err, fmt.Sprintf("GetAVSMinimumSelfDelegation: key is %s", avsAddr))
 	}
-	// #nosec G115
-	return sdkmath.LegacyNewDec(int64(avsInfo.Info.MinSelfDelegation)), nil
+	// the minimum is an unsigned 64-bit number: converting it to int64 makes a minimum of
+	// 2^63 or more negative, which every operator meets
+	return sdkmath.LegacyNewDecFromInt(sdkmath.NewIntFromUint64(avsInfo.Info.MinSelfDelegation)), nil
 }
 
 // GetEpochEndAVSs returns a list of hex AVS addresses for AVSs which are scheduled to start at the end of the
